@@ -19,8 +19,28 @@ def get_remove_tags(tags):
 
 remove_not_included = get_remove_tags(["onlyinclude", "noinclude"])
 
+# the bodies of these tags are not wikitext: inclusion directives inside them are literal text
+opaque_rx = rxc(
+    r"<(nowiki|pre|math|source|syntaxhighlight|timeline)(?:\s[^<>]*)?(?<!/)>.*?</\1\s*>"
+)
+opaque_marker_rx = rxc("\x7fOPAQUE-(\\d+)\x7f")
+
 
 def preprocess(txt, included=True):
+    opaque = []
+
+    def protect(match):
+        opaque.append(match.group(0))
+        return "\x7fOPAQUE-%d\x7f" % (len(opaque) - 1)
+
+    txt = opaque_rx.sub(protect, txt)
+    txt = _preprocess(txt, included)
+    if opaque:
+        txt = opaque_marker_rx.sub(lambda match: opaque[int(match.group(1))], txt)
+    return txt
+
+
+def _preprocess(txt, included=True):
     if included:
         txt = noincluderx.sub("", txt)
 
